@@ -372,7 +372,7 @@ def execute(mod, tier: str, seed: int, mutant: Optional[str] = None, workers: Op
                     break
     if run.exhaustive:
         run.cases_done = run.cases_total
-    if hasattr(mod, "finish") and only_cases is None:
+    if hasattr(mod, "finish") and only_cases is None and not run.errors:
         mod.finish(run)  # anti-vacuity floors apply to whole runs, not to the replay of one case
     return run
 
